@@ -132,7 +132,10 @@ def work(ctx, item):
         if a[0] == 'ok':
             ctx.violation(site, 'malformed-accepted', 'malformed selection %r accepted' % (sel, ), {'kind': 'selection', 'name': name, 'version': version, 'selection': sel})
     # unknown things raise KeyError
-    for kw, fp in (({'version': '99'}, 'unknown-version'), ({'elements': [119 if '119' not in full['elements'] else 120]}, 'unknown-element')):
+    z1 = int(next(iter(full['elements'])))
+    for kw, fp in (({'version': '99'}, 'unknown-version'), ({'elements': [119 if '119' not in full['elements'] else 120]}, 'unknown-element'),
+                   ({'elements': [0]}, 'unknown-element:[0]'), ({'elements': [0, z1]}, 'unknown-element:[0,z]'), ({'elements': ['0']}, "unknown-element:['0']"),
+                   ({'elements': '0,%d' % z1}, "unknown-element:'0,z'"), ({'elements': [z1, 0, 'X']}, 'unknown-element:[z,0,X]')):
         args = dict(version=version)
         args.update(kw)
         a = impl.call(bse.get_basis, disp, **args)
